@@ -897,12 +897,9 @@ theorem bulkStmt_inv (thr : Nat) (t : Table) (rows : List Row) (h : Inv t) : Inv
   unfold Table.bulkStmt
   split
   · exact h
-  · rename_i hg
-    apply bulkLoop_inv thr rows [] t 0 t.notNull t.checks h rfl rfl
-    intro r hr
-    simp only [List.any_eq_true, not_exists, not_and, Bool.or_eq_true, not_or, Bool.not_eq_true] at hg
-    have := (hg r hr).2
-    simpa [Table.checkNotNull] using this
+  · split
+    · exact h
+    · rename_i hv; exact insert_plain_inv thr t rows h hv
 
 theorem step_inv (thr : Nat) (t : Table) (s : Stmt) (h : Inv t) : Inv (step thr t s).1 := by
   cases s with
